@@ -168,6 +168,14 @@ class ChunkLoopTrans(LoopTrans):
             raise TransformationError("Cannot apply a ChunkLoopTrans to "
                                       "a loop with a step size of 0.")
 
+        if chunk_size % abs(int(node.step_expr.value)) != 0:
+            # The outer loop advances by chunk_size, so the inner loops only
+            # visit the original iterations if the step divides it.
+            raise TransformationError(
+                f"Cannot apply a ChunkLoopTrans to a loop whose step size "
+                f"({node.step_expr.value}) does not divide the chosen chunk "
+                f"size ({chunk_size}).")
+
         if len(node.loop_body.walk(CodeBlock)) != 0:
             raise TransformationError("Cannot apply a ChunkLoopTrans to "
                                       "a loop which contains a CodeBlock "
